@@ -547,6 +547,7 @@ class Arbiter(object):
         # start controller
         self.ctrl.start()
         self._restarting = False
+        self._stopping = False
         try:
             # initialize processes
             logger.debug('Initializing watchers')
